@@ -575,6 +575,14 @@ W_F5 = ("natoms 2\nnew\nconfig EOF\n" + XZ + "EOF\nscriptset colvar x 28 1\npos 
 W_F5_REF = ("natoms 2\nnew\nconfig EOF\n" + XZ + "EOF\npos 1 0 0 1.0\nstep\npos 1 0 0 2.0\nstep\npos 1 0 0 3.0\nstep\necho END\n")
 
 
+# F7 (repair on fix-C13-2: "fix: scaledBiasingForce switched on by script dereferenced a null map of scaling factors"): like F5,
+# a capability switched on at run time whose data is only created by the configuration keyword
+F7 = "script-set-scaled-biasing-force-null-map"
+XZG = XZ.replace("  distanceZ {", "  lowerBoundary -4.0\n  upperBoundary 4.0\n  width 0.5\n  distanceZ {")
+W_F7 = ("natoms 2\nnew\nconfig EOF\n" + XZG + HARM % ("h", "") + "EOF\nscriptset bias h 14 1\npos 1 0 0 1.0\nstep\npos 1 0 0 2.0\nstep\necho END\n")
+W_F7_REF = ("natoms 2\nnew\nconfig EOF\n" + XZG + HARM % ("h", "") + "EOF\npos 1 0 0 1.0\nstep\npos 1 0 0 2.0\nstep\necho END\n")
+
+
 def run_scn(unit, d, text, name="w.scn"):
     p = os.path.join(d, name)
     open(p, "w").write(text)
@@ -620,6 +628,19 @@ def replay_witnesses(run, unit, d, tabs, model):
         if "err=ok" not in (A or [""])[0] or not obs_equal(A, B):
             run.violation(F5 + ":observables", "switching the running average of x on by script changes the step results: %s instead of %s" % (A, B),
                           {"kind": "identity", "scenario": W_F5, "reference": W_F5_REF})
+    # F7: switching scaledBiasingForce on by script (no map of scaling factors exists): must not crash, force unscaled
+    rc, o, e = run_scn(unit, d, W_F7)
+    rc2, o2, e2 = run_scn(unit, d, W_F7_REF)
+    run.count("witness:F7", True)
+    if "echo END" not in o:
+        run.violation(F7, "`cv bias h set \"scale_biasing_force\" 1` followed by a step kills the process (rc=%d%s) in colvarbias::communicate_forces: "
+                      "biasing_force_scaling_factors is NULL unless scaledBiasingForce was read from the configuration" % (
+                          rc, ", SIGSEGV" if rc in (-11, 139) else ""), {"kind": "scenario", "scenario": W_F7})
+    else:
+        A, B = last_step_block(o), last_step_block(o2)
+        if "err=ok" not in (A or [""])[0] or not obs_equal(A, B):
+            run.violation(F7 + ":observables", "switching scaledBiasingForce on by script (no map) changes the step results: %s instead of %s" % (A, B),
+                          {"kind": "identity", "scenario": W_F7, "reference": W_F7_REF})
     # F3: script "set <feature> off" of a feature with exactly one dependent
     rc, o, e = run_scn(unit, d, W_F3)
     dumps = D.parse_deps_blocks(o.split("\n"))
